@@ -327,3 +327,114 @@ def r_rawtoken(P, chk):
                               "%s prints the raw source text of a %s token, whose lexeme contains a reserved character (%s renders "
                               "it as an entity): ill-formed XML inside code / math" % (f.name, name, reserved[name][0]))
     chk.analysed[rid] = {"reserved_types": sorted(reserved), "dispatchers": [f.name for f in funcs]}
+
+
+# ---------------------------------------------------------------------------
+# R-SINK/latex (C04): document text reaches LaTeX output through the LaTeX escaper, unless it is printed where LaTeX
+# expects an identifier, a file name, a URL or a key=value option (contexts where escaping would be wrong)
+
+LATEX_UNITS = ("latex.c", "beamer.c", "memoir.c")
+# raw LaTeX by documentation: the latex* metadata keys carry LaTeX code / file names
+RAW_META_KEYS_LATEX = {"latexheader", "latextitle", "latexauthor", "latexfooter", "latexbegin", "latexleader", "latexconfig",
+                       "latexinput", "bibtex", "bibliocommand"}
+# what the literal text immediately before the argument must end with for the argument to be an identifier / path / option
+LATEX_ID_CONTEXT = re.compile(
+    r"(\\(href|url|input|include|bibliography|nocite|gls|Gls|newglossaryentry|longnewglossaryentry|newacronym|label|autoref|ref|"
+    r"hyperref|cite[a-z]*|begin|end)(\[[^\]]*\])?\{[^{}]*$)|(\]\{$)|((language|width|height|scale)=$)|(^\{$)|(\\bibliography\{$)")
+
+
+def _prev_literal(f, call):
+    """String literal printed by the sink call immediately before `call` in the same statement list."""
+    p = f.parent(call)
+    while p is not None and p["k"] not in ("CompoundStmt", "CaseStmt", "DefaultStmt"):
+        call, p = p, f.parent(p)
+    if p is None:
+        return None
+    sibs = [c for c in p["c"] if c is not None]
+    idx = None
+    for i, c in enumerate(sibs):
+        if c is call:
+            idx = i
+    if idx is None:
+        return None
+
+    def lit_of(st):
+        st = strip(st)
+        if st is not None and st["k"] == "CallExpr" and st.get("callee") in ("d_string_append", "d_string_append_c_array") and len(st["c"]) > 2:
+            a = strip(st["c"][2])
+            if a is not None and a["k"] == "StringLiteral":
+                return a["s"]
+        return None
+
+    out = ""
+    j = idx - 1
+    while j >= 0:
+        st = sibs[j]
+        l = lit_of(st)
+        if l is not None:
+            return l + out
+        if st["k"] == "IfStmt":
+            # an `if` that only adds literal text (e.g. the optional "mailto:" prefix) does not end the context
+            calls = [x for x in walk(st) if x["k"] == "CallExpr" and x.get("callee", "").startswith("d_string_")]
+            if calls and all(lit_of(x) is not None for x in calls):
+                j -= 1
+                continue
+        return None
+    return None
+
+
+def r_sink_latex(P, chk):
+    rid = "R-SINK/latex"
+    chk.rule(rid, "in the LaTeX writers, document-derived strings are printed through mmd_print_string_latex unless the literal "
+                  "text before them shows an identifier / file / URL / option position (\\href{, \\input{, \\gls{, language=, ...) "
+                  "or the value is a documented raw-LaTeX metadata key")
+    n_sinks = n_tainted = 0
+    for f in P.all_funcs:
+        if f.unit.base not in LATEX_UNITS or not P.first_party(f) or not f.file.endswith(".c"):
+            continue
+        for c in f.calls():
+            cal = c.get("callee")
+            data = []
+            if cal == "d_string_append" and len(c["c"]) > 2:
+                data = [(c["c"][2], "print", _prev_literal(f, c))]
+            elif cal == "d_string_append_printf":
+                s, dirs = _fmt_dirs(c)
+                if s is None:
+                    continue
+                data = [(a, "printf %" + conv + " in " + repr(s[max(0, p - 18):p + 4]), s[:p]) for conv, a, p in dirs if conv in ("s",) and a is not None]
+            else:
+                continue
+            for a, how, ctx in data:
+                sa = strip(a)
+                if sa is None or sa["k"] == "StringLiteral" or const_value(sa) is not None:
+                    continue
+                n_sinks += 1
+                if not _tainted(f, a, c):
+                    chk.obligation(rid, "%s %s: %s of `%s` (not document-derived)" % (f.where(c), f.name, how, key(a)[:40]), True,
+                                   sample=False, nontrivial=False)
+                    continue
+                n_tainted += 1
+                desc = "%s %s: %s of document-derived `%s`" % (f.where(c), f.name, how, key(a)[:40])
+                if in_raw_filter(f, c):
+                    chk.obligation(rid, desc + " - {=latex} raw source, documented pass-through", True)
+                    continue
+                if ctx is not None and LATEX_ID_CONTEXT.search(ctx):
+                    chk.obligation(rid, desc + " - identifier / file / URL / option position after %r" % ctx[-24:], True)
+                    continue
+                saved = set(RAW_META_KEYS)
+                RAW_META_KEYS.update(RAW_META_KEYS_LATEX)
+                try:
+                    rawkey = in_raw_meta_branch(f, c)
+                finally:
+                    RAW_META_KEYS.clear()
+                    RAW_META_KEYS.update(saved)
+                if rawkey:
+                    chk.obligation(rid, desc + " - `%s` metadata is documented as raw LaTeX" % rawkey, True)
+                    continue
+                chk.obligation(rid, desc, False)
+                tag = re.sub(r"[^A-Za-z=\\\[{]", "", (ctx or ""))[-14:]
+                chk.violation(rid, "sink:%s:%s:%s@%s" % (f.base, f.name, key(a)[:40], tag), f.where(c),
+                              "%s writes document-derived `%s` into LaTeX output with %s (text position, after %r) bypassing "
+                              "mmd_print_string_latex: a %% & _ # $ { } in it is not escaped" % (f.name, f.src(a)[:60], how, (ctx or "")[-20:]))
+    chk.floor(rid, n_sinks, 25, "non-literal string sinks in the LaTeX writers")
+    chk.analysed[rid] = {"non_literal_sinks": n_sinks, "document_derived": n_tainted}
